@@ -61,6 +61,8 @@ class Report:
         rdir = os.path.join(ROOT, 'replays', self.prop)
         lines = []
         vio_paths = []
+        import shutil
+        shutil.rmtree(rdir, ignore_errors=True)
         if self.violations:
             os.makedirs(rdir, exist_ok=True)
             for i, v in enumerate(self.violations[:20]):
